@@ -616,11 +616,11 @@ def k11_validation(ctx: vlib.Ctx):
             ctx.not_shown("translation validation K11", str([descr[i] for i in bad[:6]]))
 
 
-def k16_validation(ctx: vlib.Ctx):
+def k40_validation(ctx: vlib.Ctx):
     """(T) the translated skeleton of the codec wrapper against the module text the real code emits."""
-    name = "K16-codec-wrapper-skeleton-vs-emitted-code"
-    if not ctx.kernel_report.get("K16", {}).get("ok"):
-        ctx.correspondence(name, 0, -1, "kernel K16 not translated: " + str(ctx.kernel_report.get("K16", {}).get("error")))
+    name = "K40-codec-wrapper-skeleton-vs-emitted-code"
+    if not ctx.kernel_report.get("K40", {}).get("ok"):
+        ctx.correspondence(name, 0, -1, "kernel K40 not translated: " + str(ctx.kernel_report.get("K40", {}).get("error")))
         return
     import re
     import typing
@@ -680,16 +680,16 @@ def k16_validation(ctx: vlib.Ctx):
         L.unload_module("c04_k16_probe")
     okf = ("fun (c: bool * bool * bool * list cinstr) => match c with (dec, b_codec, b_m, got) => "
            "prog_eqb (if dec then decode_prog b_codec b_m else encode_prog b_codec b_m) got end")
-    bad, log = vlib.coq_bad_idx("c04_k16", "CodecWrap", "From VerifGen Require Import K16.", "", cases, okf,
+    bad, log = vlib.coq_bad_idx("c04_k40", "CodecWrap", "From VerifGen Require Import K40.", "", cases, okf,
                                 "bool * bool * bool * list cinstr", shard=400, needs=["theories/CodecWrapProofs.vo"])
     ctx.count(n=len(cases))
     if bad is None:
         ctx.correspondence(name, len(cases), -1, log)
-        ctx.not_shown("translation validation K16", log)
+        ctx.not_shown("translation validation K40", log)
     else:
         ctx.correspondence(name, len(cases), len(bad), str([descr[i] for i in bad[:6]]))
         if bad:
-            ctx.not_shown("translation validation K16", str([descr[i] for i in bad[:6]]))
+            ctx.not_shown("translation validation K40", str([descr[i] for i in bad[:6]]))
 
 
 def names_oracle(ctx: vlib.Ctx):
@@ -767,7 +767,7 @@ def run(ctx: vlib.Ctx):
     ctx.theorems("props/C04_dialects.vo", ["C04_merge_strategies_is_model_clause", "C04_merge_keeps_format_omit_none"],
                  kernels=["K2", "K13"])
     ctx.theorems("props/C04_codec.vo", ["C04_codec_decode_is_unpack_after_predecoder",
-                                        "C04_codec_encode_is_postencoder_after_pack"], kernels=["K16"])
+                                        "C04_codec_encode_is_postencoder_after_pack"], kernels=["K40"])
     ctx.checker_cmd = (f"make -C {vlib.COQ} props/C04_formats.vo props/C04_names.vo props/C04_dialects.vo props/C04_codec.vo "
                        "(coqc 8.16.1, full .vo build); thorough: coqchk -o on the four files")
     if not ctx.quick():     # second opinion on the compiled proofs
@@ -783,7 +783,7 @@ def run(ctx: vlib.Ctx):
         if not ok:
             ctx.not_shown("coqchk on the C04 props", log[-1000:])
     k11_validation(ctx)
-    k16_validation(ctx)
+    k40_validation(ctx)
     correspondence(ctx)
     broken = bool(ctx.unshown)
     names_oracle(ctx)
